@@ -7,7 +7,7 @@ import json
 import os
 from vt import core
 from vt.main import decide
-from translate import plain_tr
+from translate import plain_tr, kinds_tr, nav_tr
 
 POOL = ["a", "b", "c", "B", "ab", "ba"]
 FQN_POOL = ["a.b", "b.a", "a.b.c"]
@@ -49,7 +49,13 @@ def gen_grammar(r):
         shape[k] = {"ref": pick_target() if r.chance(0.8) else None,
                     "refs": pick_target() if r.chance(0.7) else None,
                     "sub": r.chance(0.45), "kids": r.chance(0.65)}
-    g = {"commons": commons, "extra": extra, "abstracts": abstracts, "fqn": fqn, "item_alts": item_alts,
+    # user-supplied Python classes for some common rules, inheriting from each other (isinstance then holds for the
+    # base class too although the grammar does not relate the rules): [name, base name or None], bases first
+    user = []
+    if r.chance(0.3):
+        chain = r.sample(commons, r.range(2, min(3, len(commons))))
+        user = [[chain[0], None]] + [[c, r.choice(chain[:i + 1])] for i, c in enumerate(chain[1:])]
+    g = {"commons": commons, "extra": extra, "abstracts": abstracts, "fqn": fqn, "item_alts": item_alts, "user": user,
          "item_paren": item_paren, "abs_alts": abs_alts, "shape": shape, "uses": pick_target() if r.chance(0.6) else None,
          "root_named": r.chance(0.5), "odd_kids": r.chance(0.5)}
     return g
@@ -163,8 +169,32 @@ def reach(tbl):
     return r
 
 
-def conforms(R, c, t):
-    return t == "OBJECT" or (c is not None and c in R[t])
+def pysup_of(g):
+    """class name -> the other classes of the metamodel that are Python base classes of it (transitively)"""
+    base = {n: b for n, b in g.get("user", [])}
+    out = {}
+    for n in base:
+        xs, b = [], base[n]
+        while b is not None:
+            xs.append(b)
+            b = base[b]
+        out[n] = xs
+    return out
+
+
+def directs(case, cls, kind="same"):
+    """the classes for which isinstance(obj, c) or the _tx_fqn comparison holds, for an object of class cls:
+    an object of this metamodel passes for its class and the Python bases; an object of a second metamodel instance
+    (built without the user classes) only for the class of the same fqn; any other object for none"""
+    if kind == "same":
+        return [cls] + case["pysup"].get(cls, [])
+    if kind == "foreign":
+        return [cls]
+    return []
+
+
+def conforms(R, ds, t):
+    return t == "OBJECT" or any(d in R[t] for d in ds)
 
 
 def verdicts(case):
@@ -175,14 +205,14 @@ def verdicts(case):
     bmap = {e["key"]: e for e in (case["builtins"] or [])}
     out = []
     for rf in case["refs"]:
-        cands = [p for p, o in objs if isinstance(o["name"], str) and o["name"] == rf["name"] and conforms(R, o["cls"], rf["target"])]
+        cands = [p for p, o in objs if isinstance(o["name"], str) and o["name"] == rf["name"] and conforms(R, directs(case, o["cls"]), rf["target"])]
         if len(cands) == 1:
             out.append(("ok", "/" + "/".join(map(str, cands[0]))))
         elif len(cands) > 1:
             out.append(("notunique",))
         else:
             b = bmap.get(rf["name"])
-            if b is not None and conforms(R, b["cls"] if b["kind"] in ("same", "foreign") else None, rf["target"]):
+            if b is not None and conforms(R, directs(case, b["cls"], b["kind"]), rf["target"]):
                 out.append(("ok", "b:" + rf["name"]))
             else:
                 out.append(("unknown",))
@@ -202,6 +232,7 @@ def expected(case):
 
 def fill_refs(r, g, tree, names, builtins, table, wild):
     R = reach(table)
+    case = {"pysup": pysup_of(g)}
     objs = list(preorder(tree))
     bmap = {e["key"]: e for e in (builtins or [])}
     allnames = sorted(set(names) | set(bmap))
@@ -209,9 +240,9 @@ def fill_refs(r, g, tree, names, builtins, table, wild):
     def good_names(t):
         res = []
         for n in allnames:
-            k = sum(1 for _, o in objs if isinstance(o["name"], str) and o["name"] == n and conforms(R, o["cls"], t))
+            k = sum(1 for _, o in objs if isinstance(o["name"], str) and o["name"] == n and conforms(R, directs(case, o["cls"]), t))
             b = bmap.get(n)
-            if k == 1 or (k == 0 and b is not None and conforms(R, b["cls"] if b["kind"] in ("same", "foreign") else None, t)):
+            if k == 1 or (k == 0 and b is not None and conforms(R, directs(case, b["cls"], b["kind"]), t)):
                 res.append(n)
         return res
 
@@ -343,14 +374,33 @@ def gen_case(r, wild=None):
     if wild is None:
         wild = r.chance(0.45)
     fill_refs(r, g, tree, names, builtins, table, wild)
-    return finish_case(g, tree, builtins, "wild" if wild else "valid")
+    return finish_case(g, tree, builtins, "wild" if wild else "valid", other=r.chance(0.4))
 
 
-def finish_case(g, tree, builtins, stream):
+def strip_refs(o):
+    o = dict(o)
+    for k in ("ref", "refs", "uses"):
+        if k in o:
+            o[k] = None if k == "ref" else []
+    if o.get("sub") is not None:
+        o["sub"] = strip_refs(o["sub"])
+    for k in ("kids", "items"):
+        if k in o:
+            o[k] = [strip_refs(x) for x in o[k]]
+    return o
+
+
+def finish_case(g, tree, builtins, stream, other=False):
     table = class_table(g)
     text, refs = render(g, tree)
-    return {"g": g, "grammar": grammar_text(g), "table": table, "class_names": [n for n, _, _ in table],
-            "tree": tree, "builtins": builtins, "text": text, "refs": refs, "stream": stream}
+    case = {"g": g, "grammar": grammar_text(g), "table": table, "class_names": [n for n, _, _ in table],
+            "tree": tree, "builtins": builtins, "text": text, "refs": refs, "stream": stream,
+            "user": g.get("user", []), "pysup": pysup_of(g)}
+    if other:
+        # a second model of the same metamodel with the same objects (same names and classes) and no references,
+        # loaded first and kept alive: were it searched, every resolvable name would become ambiguous
+        case["other_text"] = render(g, strip_refs(tree))[0]
+    return case
 
 
 # ------------------------------------------------------------------ corpus (corpus/C07/*.json, run first)
@@ -368,7 +418,15 @@ def corpus_cases():
 
 # ------------------------------------------------------------------ Coq side
 IMPORTS = """From TxV Require Import Core.Base Core.Show Model.PlainDefs Gen.SrcPlain Model.Plain.
+From TxV Require Model.Kinds.
 Open Scope string_scope.
+Definition show_kinds (g : list Kinds.rule) (nu : nat) : string :=
+  match Kinds.determine_types g with
+  | None => "OOF"
+  | Some s =>
+      sjoin "" (map (fun x => match Kinds.types s x with Kinds.KMatch => "m" | Kinds.KAbstract => "a" | Kinds.KCommon => "c" end) (seq 0 nu))
+      ++ "|" ++ sjoin ";" (map (fun x => sjoin "," (map show_nat (Kinds.inh s x))) (seq 0 nu))
+  end.
 Definition show_path (p : list nat) : string := "/" ++ sjoin "/" (map show_nat p).
 Definition show_outcome (o : outcome) : string :=
   match o with Resolved p => show_path p | Builtin k => "b:" ++ show_str k | _ => "?" end.
@@ -378,12 +436,57 @@ Definition show_load (classes : list cls) (root : node) (b : builtins) (rs : lis
   | LoadOk ts => "OK|" ++ sjoin "," (map show_outcome ts)
   | LoadErr i e => let '(m, et) := error_text classes e in
                    "ERR|" ++ show_nat i ++ "|" ++ show_str m ++ "|" ++ show_opt show_str et
-  end."""
+  end.
+Definition show_case (classes : list cls) (root : node) (b : builtins) (rs : list ref) (g : list Kinds.rule) (nu : nat) : string :=
+  show_load classes root b rs ++ "#K#" ++ show_kinds g nu."""
+
+
+KBASE = ["ID", "STRING", "BOOL", "INT", "FLOAT", "STRICTFLOAT", "NUMBER", "BASETYPE"]
+KBASE_BODY = {"NUMBER": ["STRICTFLOAT", "INT"], "BASETYPE": ["NUMBER", "FLOAT", "BOOL", "ID", "STRING"]}
+
+
+def kinds_grammar(g):
+    """the generated grammar in the form of C03's model (Model/Kinds.v): rules in grammar order, then the base types;
+    rule i of that list is class i+1 of the C07 table (class 0 is OBJECT).  Returns (Coq term, number of classes)."""
+    names = ["Model", "Item"] + g["commons"] + g["extra"] + g["abstracts"] + (["FQN"] if g["fqn"] else []) + KBASE
+    idx = {n: i for i, n in enumerate(names)}
+    common = "{| Kinds.r_attrs := true; Kinds.r_body := Kinds.Body Kinds.Term |}"
+
+    def alt(kind, x):
+        return "Kinds.Ref %d" % idx[x] if kind == "plain" else "Kinds.Seq [Kinds.Term; Kinds.Ref %d; Kinds.Term]" % idx[x]
+
+    def body(alts):
+        if len(alts) == 1 and alts[0][0] == "plain":          # a single rule reference: alias
+            return "{| Kinds.r_attrs := false; Kinds.r_body := Kinds.Alias %d |}" % idx[alts[0][1]]
+        e = alt(*alts[0]) if len(alts) == 1 else "Kinds.Choice [%s]" % "; ".join(alt(k, x) for k, x in alts)
+        return "{| Kinds.r_attrs := false; Kinds.r_body := Kinds.Body (%s) |}" % e
+    rules = [common, body([("plain", x) for x in g["item_alts"]] + ([("paren", "Item")] if g["item_paren"] else []))]
+    rules += [common for _ in g["commons"] + g["extra"]]
+    rules += [body([tuple(a) for a in g["abs_alts"][a]]) for a in g["abstracts"]]
+    if g["fqn"]:
+        rules.append("{| Kinds.r_attrs := false; Kinds.r_body := Kinds.Body (Kinds.Seq [Kinds.Ref %d; Kinds.Opt (Kinds.Seq [Kinds.Term; Kinds.Ref %d])]) |}" % (idx["ID"], idx["ID"]))
+    for b in KBASE:
+        e = "Kinds.Choice [%s]" % "; ".join("Kinds.Ref %d" % idx[x] for x in KBASE_BODY[b]) if b in KBASE_BODY else "Kinds.Term"
+        rules.append("{| Kinds.r_attrs := false; Kinds.r_body := Kinds.Body (%s) |}" % e)
+    nu = 2 + len(g["commons"]) + len(g["extra"]) + len(g["abstracts"])
+    return "[%s]" % "; ".join(rules), nu
+
+
+def kinds_expected(case):
+    """what show_kinds must print for the class table handed to the model: kinds and inheritance lists of the classes
+    after OBJECT, as rule indices of the Kinds grammar (class index - 1)"""
+    idx = {n: i for i, (n, _, _) in enumerate(case["table"])}
+    letter = {"common": "c", "abstract": "a", "match": "m"}
+    rows = [(k, inh) for n, k, inh in case["table"] if n != "OBJECT"]
+    return "".join(letter[k] for k, _ in rows) + "|" + ";".join(",".join(str(idx[x] - 1) for x in inh) for _, inh in rows)
 
 
 def coq_case(case):
     idx = {n: i for i, (n, _, _) in enumerate(case["table"])}
-    classes = core.coq_list(["{| cname := %s; cinh := %s |}" % (core.coq_str(n), core.coq_list(["%d%%nat" % idx[x] for x in inh]))
+
+    def nats(names):
+        return core.coq_list(["%d%%nat" % idx[x] for x in names])
+    classes = core.coq_list(["{| cname := %s; cinh := %s; cpy := %s |}" % (core.coq_str(n), nats(inh), nats(case["pysup"].get(n, [])))
                              for n, _, inh in case["table"]])
 
     def node(o):
@@ -394,11 +497,11 @@ def coq_case(case):
         else:
             nm = "NameOther"
         return "(Node %d%%nat %s %s)" % (idx[o["cls"]], nm, core.coq_list([node(k) for k in kids_of(o)]))
-    b = core.coq_list(["(%s, %s)" % (core.coq_str(e["key"]), ("Some %d%%nat" % idx[e["cls"]]) if e["kind"] in ("same", "foreign") else "@None nat")
-                       for e in (case["builtins"] or [])])
+    b = core.coq_list(["(%s, (%s : list nat))" % (core.coq_str(e["key"]), nats(directs(case, e["cls"], e["kind"]))) for e in (case["builtins"] or [])])
     b = "(%s : builtins)" % b
     refs = "(%s : list ref)" % core.coq_list(["{| rname := %s; rcls := %d%%nat |}" % (core.coq_str(rf["name"]), idx[rf["target"]]) for rf in case["refs"]])
-    return "show_load %s %s %s %s" % (classes, node(case["tree"]), b, refs)
+    kg, nu = kinds_grammar(case["g"])
+    return "show_case %s %s %s %s %s %d%%nat" % (classes, node(case["tree"]), b, refs, kg, nu)
 
 
 # ------------------------------------------------------------------ comparing
@@ -435,11 +538,31 @@ def harness_problem(case, o):
         got = o["classes"].get(n)
         if got is None or got["type"] != kind or not _subsequence(got["inh"], inh):
             return "class %s: metamodel has %r, generator intended %r" % (n, got, (kind, inh))
+        if got.get("py", []) != case["pysup"].get(n, []):
+            return "class %s: Python bases among the metamodel classes are %r, generator intended %r" % (n, got.get("py"), case["pysup"].get(n, []))
     def strip(t):
         return [t[0], t[1][:1] if t[1][0] == "other" else t[1], [strip(k) for k in t[2]]]
     if "tree" in o and strip(o["tree"]) != tree_of_case(case):
         return "parsed containment tree differs from the generated one"
     return None
+
+
+def inh_by_incomplete(intended_table):
+    """classifier of C03's known finding inh-by-incomplete, restricted to the grammars generated here (their sequences
+    are `'(' X ')'`, so the skippable-first clause never applies): a cycle through abstract rules in the reference graph.
+    A dropped inheritance entry is accepted only inside this class."""
+    kinds = {n: k for n, k, _ in intended_table}
+    refs = {n: [x for x in inh if kinds.get(x) == "abstract"] for n, k, inh in intended_table if k == "abstract"}
+    for a in refs:
+        seen, todo = set(), list(refs[a])
+        while todo:
+            x = todo.pop()
+            if x == a:
+                return True
+            if x not in seen:
+                seen.add(x)
+                todo += refs.get(x, [])
+    return False
 
 
 def _subsequence(xs, ys):
@@ -511,6 +634,65 @@ def oracle(case, o):
     return "reference #%d must fail with a 'not unique' error for %s, got %r" % (at, r["name"], msg)
 
 
+def oracle_nomm(case, o):
+    """PlainName(multi_metamodel_support=False) - not the default provider, no Coq model: oracle only.  The lookup goes
+    through parser._instances (objects by exact class and name) along _tx_inh_by; the part of the property that does not
+    depend on the variant is demanded: a reference whose target is not OBJECT resolves to SOME object of the model whose
+    name is the reference text and whose class conforms when there is one (no uniqueness check in this variant), else
+    to the conforming builtins entry, else loading fails with the 'Unknown object' error located at such a reference."""
+    if "harness" in o:
+        return None
+    R = reach(case["table"])
+    objs = list(preorder(case["tree"]))
+    bmap = {e["key"]: e for e in (case["builtins"] or [])}
+    vs = []
+    for rf in case["refs"]:
+        cands = [] if rf["target"] == "OBJECT" else ["/" + "/".join(map(str, p)) for p, ob in objs if isinstance(ob["name"], str) and ob["name"]
+                                                     and ob["name"] == rf["name"] and conforms(R, [ob["cls"]], rf["target"])]
+        b = bmap.get(rf["name"])
+        if cands:
+            vs.append(cands)
+        elif b is not None and conforms(R, directs(case, b["cls"], b["kind"]), rf["target"]):
+            vs.append(["b:" + rf["name"]])
+        else:
+            vs.append(None)
+    failing = [i for i, v in enumerate(vs) if v is None]
+    if "ok" in o:
+        if failing:
+            rf = case["refs"][failing[0]]
+            return "[multi_metamodel_support=False] reference #%d (%s of class %s) has no candidate and no conforming builtin, but the model loaded" % (failing[0], rf["name"], rf["target"])
+        if len(o["ok"]) != len(vs) or any(t not in v for t, v in zip(o["ok"], vs)):
+            return "[multi_metamodel_support=False] resolved targets %r are not among the candidates %r" % (o["ok"], vs)
+        return None
+    e = o["err"]
+    if e["cls"] != "TextXSemanticError":
+        return "[multi_metamodel_support=False] loading must succeed or fail with a TextXSemanticError, got %s: %s" % (e["cls"], e["message"])
+    if not failing:
+        return "[multi_metamodel_support=False] every reference has a candidate or a conforming builtin, but loading failed: %r" % e["message"]
+    ok = any(e["err_type"] == "Unknown object" and '"%s"' % case["refs"][i]["name"] in (e["message"] or "")
+             and (e["line"], e["col"]) == (case["refs"][i]["line"], case["refs"][i]["col"]) for i in failing)
+    return None if ok else "[multi_metamodel_support=False] the error %r at %s:%s is not the Unknown-object failure of a reference without candidate" % (e["message"], e["line"], e["col"])
+
+
+def run_nomm(chk, cases, failures, disagreements):
+    for c in cases:
+        c["nomm"] = True
+    chunks = [c for c in (cases[i::core.NPROC] for i in range(core.NPROC)) if c]
+    outs = core.run_impl_parallel("c07", [{"cases": [{k: c[k] for k in ("grammar", "text", "builtins", "class_names", "user", "other_text", "nomm") if k in c} for c in ch]} for ch in chunks])
+    for ch, out in zip(chunks, outs):
+        for c, o in zip(ch, out):
+            chk.stat("stream=multi_metamodel_support=False (oracle only)")
+            hp = harness_problem(c, o)
+            if hp:
+                disagreements.append({"case": public(c), "impl": o, "model": None, "what": "harness/glue: " + hp})
+                continue
+            adopt_metamodel_table(c, o)
+            chk.stat("nomm outcome=" + ("ok" if "ok" in o else o["err"]["cls"]))
+            bad = oracle_nomm(c, o)
+            if bad:
+                failures.append({"case": public(c), "impl": o, "model": None, "what": bad, "tags": []})
+
+
 def case_key(case):
     return json.dumps([case["table"], tree_of_case(case), [[e["key"], e["kind"], e["cls"]] for e in (case["builtins"] or [])] if case["builtins"] is not None else None,
                        [[rf["name"], rf["target"]] for rf in case["refs"]]], sort_keys=True)
@@ -522,7 +704,7 @@ def nontrivial(case):
 
 
 def public(case):
-    return {k: case[k] for k in ("grammar", "text", "builtins", "refs", "table", "stream", "class_names", "tree", "g", "intended_table") if k in case}
+    return {k: case[k] for k in ("grammar", "text", "builtins", "refs", "table", "stream", "class_names", "tree", "g", "intended_table", "user", "pysup", "other_text", "nomm") if k in case}
 
 
 def enumerated_cases():
@@ -566,19 +748,22 @@ def enumerated_cases():
 def run_cases(chk, cases, tag, failures, disagreements):
     chunks = [cases[i::core.NPROC] for i in range(core.NPROC)]
     chunks = [c for c in chunks if c]
-    outs = core.run_impl_parallel("c07", [{"cases": [{k: c[k] for k in ("grammar", "text", "builtins", "class_names")} for c in ch]} for ch in chunks])
+    outs = core.run_impl_parallel("c07", [{"cases": [{k: c[k] for k in ("grammar", "text", "builtins", "class_names", "user", "other_text", "nomm") if k in c} for c in ch]} for ch in chunks])
     res = {}
     for ch, o in zip(chunks, outs):
         for c, x in zip(ch, o):
             res[id(c)] = x
     for c in cases:
         if adopt_metamodel_table(c, res[id(c)]):
-            chk.stat("inheritance edge dropped by the grammar compiler (table taken from the metamodel)")
+            chk.stat("inheritance entry missing in the metamodel: C03 finding inh-by-incomplete (table taken from the metamodel)")
     vals, errs = core.coq_eval(tag, IMPORTS, [coq_case(c) for c in cases])
     if errs:
         disagreements.append({"case": "coq evaluation", "model": errs[:2]})
     for c, mv in zip(cases, vals):
         o = res[id(c)]
+        kv = None
+        if mv is not None and "#K#" in mv:
+            mv, kv = mv.split("#K#", 1)
         chk.count(case_key(c), nontrivial=nontrivial(c))
         want = expected(c)
         chk.stat("stream=" + c["stream"])
@@ -588,10 +773,24 @@ def run_cases(chk, cases, tag, failures, disagreements):
             chk.stat("refs resolved to builtins", sum(1 for x in want["ok"] if x.startswith("b:")))
         if _cyclic(c["table"]):
             chk.stat("cyclic inheritance graph")
+        if c.get("other_text"):
+            chk.stat("cases with another loaded model of the same metamodel holding the same names")
+        if c["user"]:
+            chk.stat("metamodels with user-supplied classes")
+            plain = dict(c, pysup={})
+            chk.stat("references whose verdict depends on Python inheritance", sum(1 for a, b in zip(verdicts(c), verdicts(plain)) if a != b))
         hp = harness_problem(c, o)
         if hp:
             disagreements.append({"case": public(c), "impl": o, "model": mv, "what": "harness/glue: " + hp})
         elif mv is not None:
+            # bridge to C03's model, checked per case: the class table the model runs on (the metamodel's, cross-checked
+            # above) is what Kinds.determine_types records for this grammar - also when an inheritance edge is dropped
+            if kv != kinds_expected(c):
+                disagreements.append({"case": public(c), "impl": kinds_expected(c), "model": kv,
+                                      "what": "rule kinds / _tx_inh_by of the metamodel differ from Kinds.determine_types on the generated grammar"})
+            if "intended_table" in c and not inh_by_incomplete(c["intended_table"]):
+                disagreements.append({"case": public(c), "impl": o["classes"], "model": kv,
+                                      "what": "the metamodel lacks an inheritance entry although the grammar is outside the class of C03's finding inh-by-incomplete"})
             if not mv.startswith("wf=T|"):
                 disagreements.append({"case": public(c), "impl": o, "model": mv, "what": "class table not well-formed"})
             elif mv[len("wf=T|"):] != impl_canon(c, o):
@@ -610,13 +809,21 @@ def _cyclic(table):
 
 
 def run(chk):
-    chk.prove([plain_tr.translate])
+    chk.prove([plain_tr.translate, kinds_tr.translate, nav_tr.translate])
     failures, disagreements = [], []
     cases = corpus_cases()
     n = 1500 if chk.thorough else 330
     for i in range(n):
         cases.append(gen_case(chk.rng.split(i)))
     run_cases(chk, cases, "C07", failures, disagreements)
+    # the other variant of the provider (lookup through parser._instances); metamodels without user classes
+    nomm, j = [], 0
+    while len(nomm) < (300 if chk.thorough else 70):
+        c = gen_case(chk.rng.split("nomm%d" % j))
+        j += 1
+        if not c["user"]:
+            nomm.append(c)
+    run_nomm(chk, nomm, failures, disagreements)
     if chk.thorough:
         en = enumerated_cases()
         chk.stat("enumerated cases", len(en))
@@ -632,7 +839,8 @@ def run(chk):
                         "fallback and of textx_isinstance is checked, fail closed)",
                         "get_children and the grammar compiler's _tx_inh_by computation are tied by correspondence only (class tables and parsed trees are compared with the generator's)",
                         "an object is contained at most once (parse results are trees), so get_children's collected_ids test never fires and is not modelled",
-                        "objects of user-supplied Python classes (isinstance through Python inheritance) are outside the model"]
+                        "user-supplied classes are modelled through the Python-base lists of the class table (cpy); the runner's dump of each class's MRO is compared with the generator's",
+                        "bridges to Model/Kinds.v (C03) and Model/Nav.v (C05) import those models read-only; their ties to the source (kinds_tr.py, nav_tr.py and the C03/C05 correspondences) are theirs"]
     decide(chk, failures, disagreements)
 
 
@@ -641,7 +849,7 @@ def replay(rep):
     if not isinstance(case, dict) or "grammar" not in case:
         print(json.dumps(rep, indent=1))
         return 0
-    o = core.run_impl("c07", {"cases": [{k: case[k] for k in ("grammar", "text", "builtins", "class_names")}]})[0]
+    o = core.run_impl("c07", {"cases": [{k: case[k] for k in ("grammar", "text", "builtins", "class_names", "user", "other_text", "nomm") if k in case}]})[0]
     vals, errs = core.coq_eval("C07r", IMPORTS, [coq_case(case)])
     print("grammar:\n" + case["grammar"])
     print("model text:\n" + case["text"])
@@ -649,6 +857,8 @@ def replay(rep):
     print("implementation:", json.dumps(o.get("ok", o.get("err", o))))
     print("model        :", vals[0], errs or "")
     print("demanded     :", json.dumps(expected(case)))
-    bad = oracle(case, o)
+    bad = oracle_nomm(case, o) if case.get("nomm") else oracle(case, o)
+    if case.get("nomm"):
+        print("(provider variant multi_metamodel_support=False: oracle only; the model line above is the default provider's)")
     print("property verdict:", "VIOLATED: " + bad if bad else "holds")
     return 1 if bad else 0
